@@ -48,8 +48,12 @@ def r_mid(rng):
     return rng.choice((b"\0" * 6, b"\xff" * 6, b"\x80\0\0\0\0\x01")) if rng.random() < 0.2 else bytes(rng.randrange(256) for _ in range(6))
 
 
+NAMED_ST = tuple(range(12)) + (15,)      # EN 302 636-4-1 clause 6.3: 0..11 and 15 (road side unit); 12..14, 16..31 carry no name
+UNNAMED_ST = (12, 13, 14) + tuple(range(16, 32))
+
+
 def r_addr(rng):
-    return {"m": rng.randrange(2), "st": rng.randrange(13), "mid": r_mid(rng)}
+    return {"m": rng.randrange(2), "st": rng.choice(NAMED_ST), "mid": r_mid(rng)}
 
 
 def r_lpv(rng):
@@ -80,7 +84,7 @@ def S():
     from flexstack.btp.btp_header import BTPAHeader, BTPBHeader
 
     def mk_addr(a):
-        return GNAddress(m=M(a["m"]), st=ST(a["st"]), mid=MID(a["mid"]))
+        return GNAddress(m=M(a["m"]), st=ST.ROAD_SIDE_UNIT if a["st"] == 15 else ST(a["st"]), mid=MID(a["mid"]))
 
     def un_addr(a):
         return {"m": a.m.value, "st": a.st.value, "mid": a.mid.mid}
@@ -104,7 +108,7 @@ def S():
 
     T = {}
     T["gnaddr"] = dict(
-        rand=r_addr, sweep={"m": range(2), "st": range(13)},
+        rand=r_addr, sweep={"m": range(2), "st": NAMED_ST},
         mk=mk_addr, enc=lambda o: o.encode(), dec=lambda b: GNAddress.decode(b), un=un_addr,
         ref_enc=W.enc_gn_addr, norm=lambda f: f)
     T["lpv"] = dict(
@@ -339,7 +343,8 @@ def gen_p(rng):
             "hop": rng.choice((0, 1, 2, 10, 255, rng.randrange(256))), "life_ms": rng.choice((None, 50, 1000, 3150, 60000, rng.randrange(50, 600000))),
             "lat": lat, "lon": lon, "s": r_s15(rng), "h": rng.randrange(3601), "pai": rng.randrange(2),
             "a": rng.randrange(1, 1500), "b": rng.randrange(1, 1500), "angle": rng.randrange(360),
-            "plen": rng.choice((0, 1, 17, 200, 1000)), "st": rng.randrange(13), "m": 0,
+            "plen": rng.choice((0, 1, 17, 200, 1000)), "st": rng.choice(NAMED_ST), "m": 0,
+            "pst": rng.choice((7, 7, 15, rng.choice(NAMED_ST), rng.choice(UNNAMED_ST))),
             "rhl": rng.choice((2, 3, 10, 255)), "mib_hop": rng.choice((2, 10, 200)), "mib_life": rng.choice((1, 60, 600))}
 
 
@@ -392,7 +397,7 @@ def run_p_case(c, res):
         mask_lt = False
         n0 = len(w.ether.wire)
         exc = None
-        phantom = {"addr": {"m": 0, "st": 7, "mid": mid_of(9)}, "tst": tst_of(w.clock.now()), "lat": nlat, "lon": nlon,
+        phantom = {"addr": {"m": 0, "st": c.get("pst", 7), "mid": mid_of(9)}, "tst": tst_of(w.clock.now()), "lat": nlat, "lon": nlon,
                    "pai": 1, "s": 123, "h": 900}
         far = {"addr": {"m": 0, "st": 5, "mid": mid_of(33)}, "tst": 5, "lat": nlat, "lon": nlon}
 
@@ -484,6 +489,11 @@ def run_p_case(c, res):
             return
         if ltv is None and expected and expected[0] == "orig" and kind not in ("beacon", "ls_request", "ls_reply"):
             pass
+        if not tx and (kind.startswith("fwd") or kind == "ls_reply") and c.get("pst", 7) in UNNAMED_ST:
+            # a station-type code without a name: the receiver may refuse the frame as a whole; what it may not do is
+            # forward it with the source address altered (decided below when something was emitted)
+            res.count("P.unnamed_station_type_frame_refused")
+            return
         if not tx:
             if kind in ("fwd_gbc",) and c.get("scf"):
                 res.count("P.not_forwarded_allowed")
